@@ -59,7 +59,9 @@ def run(check: Check) -> None:
 
     # the operators that reach the runtime "operator missing" tests are the block's own (a block that has the operator must not
     # meet a None on the way down the antecedent), and every parser of the rule text separates tokens the way readiness assumes
-    wiring.p9_antecedent(check)
+    from .antecedent_sem import antecedent_semantics
+
+    antecedent_semantics(check, rule="P9")  # Antecedent.activation_degree interpreted on model expression trees with symbolic leaves
     c16.tokenisers(check, rule="C1-tok")
 
 
@@ -269,9 +271,9 @@ def readiness_semantics(check: Check) -> None:
             engine = MObj("Engine", {"name": "engine", "input_variables": [iv], "output_variables": [ov_m, ov_t], "rule_blocks": [rb]})
             errors: list = []
             ex = AbsExec(fn.qualname, hooks, helpers=helpers)
-            env = {params[0]: engine, params[1] if len(params) > 1 else "errors": errors, "Rule": rule_ns, "IntegralDefuzzifier": ("class", "IntegralDefuzzifier"),
-                   "WeightedDefuzzifier": ("class", "WeightedDefuzzifier"), "OutputVariable": ("class", "OutputVariable"), "InputVariable": ("class", "InputVariable"),
-                   "Variable": ("class", "Variable")}
+            ex.globals = {"Rule": rule_ns, "IntegralDefuzzifier": ("class", "IntegralDefuzzifier"), "WeightedDefuzzifier": ("class", "WeightedDefuzzifier"),
+                          "OutputVariable": ("class", "OutputVariable"), "InputVariable": ("class", "InputVariable"), "Variable": ("class", "Variable")}
+            env = {params[0]: engine, params[1] if len(params) > 1 else "errors": errors}
             try:
                 ex.block(list(node.body), env)
                 ret = None
